@@ -850,7 +850,9 @@ def gen_wrappers(rng, quick):
             tg = ['push aa00', 'pushstr 616263', 'pushint 77', 'pop', 'get', 'getat 1', 'popat 1', 'popat -1', 'getat -1']
             for t in tg:
                 H.append(Hist(typ, [opt], pre, t, tail, '%s/n%d' % (typ, n)))
-        for pre, tg in ((['pushstr 616263', 'pushstr 78'], ['popstr', 'getstr']), (['pushint 5', 'pushint -9'], ['popint', 'getint'])):
+        for pre, tg in ((['pushstr 616263', 'pushstr 78'], ['popstr', 'getstr']), (['pushint 5', 'pushint -9'], ['popint', 'getint']),
+                        # elements without a terminating NUL read as strings (the last byte is given up for the terminator)
+                        (['push 41424344', 'push 5a'], ['popstr', 'getstr']), (['push 4142434445464748494a', 'pushstr 61', 'push 7a7a7a'], ['popstr', 'getstr'])):
             for t in tg:
                 H.append(Hist(typ, [0], pre, t, ['size', 'push 01', 'pop'], '%s/typed' % typ))
     for opt in (0, 1):
